@@ -916,6 +916,46 @@ def check_map(ctx, where, index, map_, frames_results, gt_counts, policy, level,
     return labels, mode_name, aps, aphs
 
 
+_THR_KEY = {"center": "Center Distance", "plane": "Plane Distance", "iou2d": "IoU 2D", "iou3d": "IoU 3D"}
+
+
+def configured_thresholds(plan_cfg):
+    """{mode name: sorted list of per-label threshold tuples} as the plan configured them (spellings resolved here)."""
+    n = len(plan_cfg["target_labels"])
+    out = {}
+    for key, spec in (plan_cfg.get("thresholds") or {}).items():
+        if plan_cfg.get("dim") == 2 and key in ("plane", "iou3d"):
+            continue
+        rows = []
+        if all(not isinstance(v, (list, tuple)) for v in spec):
+            rows = [tuple([float(v)] * n) for v in spec]
+        else:
+            for row in spec:
+                row = list(row)
+                rows.append(tuple(float(v) for v in (row * n if len(row) == 1 else row)))
+        out[_THR_KEY[key]] = sorted(rows)
+    return out
+
+
+def check_configured_thresholds(ctx, prop, index, scores, level, plan_cfg, kind):
+    """Every score object is computed for exactly the matching modes and per-label thresholds that were configured."""
+    want = configured_thresholds(plan_cfg)
+    got = {}
+    for sc in scores:
+        if kind == "map":
+            row = tuple(float(t) for t in sc.matching_threshold_list)
+        else:
+            row = tuple(float(c.matching_threshold_list[0]) for c in sc.clears)
+        got.setdefault(sc.matching_mode.value, []).append(row)
+    got = {k: sorted(v) for k, v in got.items()}
+    if got != {k: v for k, v in want.items() if v}:
+        ctx.violate(prop, "configured_thresholds", "%s scores are computed for %s, configured were %s" % (
+            level, {k: len(v) for k, v in sorted(got.items())}, {k: len(v) for k, v in sorted(want.items())}),
+            {"got": _jsonable(got), "configured": _jsonable(want)}, index)
+    else:
+        ctx.probe("configured_thresholds_checked")
+
+
 class C04Monitor(X.Monitor):
     """AP/APH/mAP of every frame score and scene score; also feeds the within-step C08 clause."""
 
@@ -933,6 +973,7 @@ class C04Monitor(X.Monitor):
         gt_counts = {}
         for g in fr.frame_ground_truth.objects:
             gt_counts[V.label_of(g)] = gt_counts.get(V.label_of(g), 0) + 1
+        check_configured_thresholds(ctx, "C04", st.index, maps, "frame", ctx.plan["config"], "map")
         summary = []
         for m in maps:
             summary.append((m,) + tuple(check_map(ctx, lane.name, st.index, m, [fr.object_results], gt_counts, policy, "frame")))
@@ -950,6 +991,7 @@ class C04Monitor(X.Monitor):
         for fr in frames:
             for g in fr.frame_ground_truth.objects:
                 gt_counts[V.label_of(g)] = gt_counts.get(V.label_of(g), 0) + 1
+        check_configured_thresholds(ctx, "C04", index, score.maps, "scene", ctx.plan["config"], "map")
         summary = []
         for m in score.maps:
             summary.append((m,) + tuple(check_map(ctx, lane.name, index, m, [fr.object_results for fr in frames], gt_counts, policy, "scene")))
